@@ -11,9 +11,14 @@ Space
     _Paragraph.text and _Run.text (on the text box), onto six prior body states injected as XML;
   * all ordered pairs of assignments (level1, s1), (level2, s2) over all strings with
     len(s1) + len(s2) <= 2 (quick) / <= 3 (thorough) on each of the six prior states and all 16 level
-    pairs: the second assignment is checked on the
-    body the first one left behind (an enclosing-or-same level second assignment must fully
-    supersede the first; an inner-level one must change only its own paragraph / run).
+    pairs: the second assignment is checked on the body the first one left behind (an
+    enclosing-or-same level second assignment must fully supersede the first; an inner-level one
+    must change only its own paragraph / run). The body after the first assignment is snapshotted
+    (deepcopy of its a:p children) and restored before every second assignment.
+
+Violations are reduced to one signature per minimal character-class set (see reduce_single), e.g.
+`C04|getter|level=run|prior=any|chars=vt|s='\\x0b'`; a failure of the second assignment of a pair is
+only reported when the same (rule, level, string) did not already fail as a single assignment.
 
 Oracle: mc/oracles/text_ref.py (written from the property statement). Per case
   raised        the assignment (or a getter) raised
@@ -45,6 +50,7 @@ Deviations from DESIGN 4/C04
 from __future__ import annotations
 
 import copy
+import heapq
 import io
 import itertools
 
@@ -117,7 +123,10 @@ def closed_form(n):
 
 
 def order_key(s):
-    return (len(s), tuple(S.index(c) if c in S else 100 + ord(c) for c in s))
+    """Tier-stable order: quick-tier strings (length <= 3 over S), then the fixed extras, then length 4."""
+    in_s = all(c in S for c in s)
+    rank = 0 if (in_s and len(s) <= 3) else (2 if (in_s and len(s) == 4) else 1)
+    return (rank, len(s), tuple(S.index(c) if c in S else 100 + ord(c) for c in s))
 
 
 def classes(s):
@@ -129,6 +138,20 @@ def classes(s):
             k = "c0" if o < 0x20 else ("txt" if o < 0x7f else ("astral" if o > 0xFFFF else "uni"))
         out.add(k)
     return tuple(sorted(out))
+
+
+def outcome_label(s, sn):
+    """Coarse kind of translation observed (vacuity report): <= 16 labels per operation."""
+    flags = []
+    if len(sn[1]) > 1:
+        flags.append("paragraphs")
+    if "\v" in sn[0]:
+        flags.append("break")
+    if "_x00" in sn[0]:
+        flags.append("escape")
+    if sn[0] == s:
+        flags.append("verbatim")
+    return "+".join(flags) or "other"
 
 
 def nontrivial(s):
@@ -267,7 +290,7 @@ def do_op(H, host, pre, level, s, judged=True):
         part = H.part[host]
         blob = part.blob
     except Exception as e:  # noqa: BLE001
-        return [("raised:%s" % type(e).__name__, "%s-level assignment of %r raised %r" % (level, s, e))], None, None
+        return [("raised:%s" % type(e).__name__, "%s-level assignment (or read-back) of %r raised %r" % (level, s, e))], None, None
 
     if judged:
         if got not in exp.level_text:
@@ -412,10 +435,7 @@ def _single_worker(part, chunk):
             if sn is not None:
                 entries.append((si, host, copy.deepcopy(H.container(host)), sn))
                 if judged:
-                    part.outcome(level, "+".join(classes(sn[0])) + ("|%dp" % len(sn[1])))
-                if si % 977 == 5:
-                    part.sample({"level": level, "prior": prior, "assigned": s, "frame_text_read": sn[0],
-                                 "paragraph_texts_read": list(sn[1])})
+                    part.outcome(level, outcome_label(s, sn))
             for rule, msg in fails:
                 _note_single(part, best, rule, level, prior, s, msg)
         for si, rule, msg in batch_roundtrip(entries):
@@ -437,7 +457,7 @@ def _note_single(part, best, rule, level, prior, s, msg):
 def _pair_worker(part, chunk):
     H = hosts()
     best = {}
-    for (pri, l1, s1i) in chunk:
+    for (pri, l1, s1i) in (u for group in chunk for u in group):
         prior, level1, s1 = PRIOR_NAMES[pri], LEVELS[l1], _PAIRSTR[s1i]
         plan = [("cell", LEVELS)] if level1 == "cell" else [("tb", ["frame", "para", "run"]), ("cell", ["cell"])]
         for host, levels2 in plan:
@@ -458,19 +478,17 @@ def _pair_worker(part, chunk):
                     if nontrivial(s1) or nontrivial(s2):
                         part.count("nontrivial_count")
                     if sn is not None:
-                        part.outcome(level1 + ">" + level2, "+".join(classes(sn[0])) + ("|%dp" % len(sn[1])))
+                        part.outcome(level1 + ">" + level2, outcome_label(s2, sn))
                     for rule, msg in fails:
                         if (rule, level2, s2) in _FAIL1:
                             part.count("pair_failures_already_reported_by_single_phase")
                             continue
-                        k = (rule, level1, classes(s1), level2, classes(s2))
-                        v = ((len(s1) + len(s2), order_key(s1), order_key(s2), pri), prior, s1, s2, msg)
+                        k = (rule, level1, classes(s1), level2, classes(s2), prior)
+                        v = ((len(s1) + len(s2), order_key(s1), order_key(s2)), prior, s1, s2, msg)
                         if k not in best or v[0] < best[k][0]:
                             best[k] = v
-            if s1i == 3 and level1 == "para":
-                part.sample({"prior": prior, "first": [level1, s1], "second": [levels2[-1], strs2[-1]]})
     for k, v in best.items():
-        part.add("_failp", k + (v[0][3],) + v)
+        part.add("_failp", k[:5] + v)
 
 
 # ---- reduction to minimal signatures -------------------------------------------------------------------------
@@ -483,23 +501,34 @@ def _prior_label(prs):
 
 
 def reduce_single(records):
-    """records: (rule, level, prior, cs, okey, s, msg). One signature per minimal (rule, level, class set)."""
+    """records: (rule, level, prior, cs, okey, s, msg) -> one signature per minimal (rule, level, class set).
+
+    Tier-stable by construction: the witness of a key is its least string under order_key (strings of the
+    quick tier sort before the fixed extras, those before the length-4 strings), the prior label lists the
+    priors on which that very string fails, and a key is only suppressed by a key with a strictly smaller
+    class set whose witness does not sort later and fails on at least the same priors.
+    """
     groups = {}
     for rule, level, prior, cs, okey, s, msg in records:
         g = groups.setdefault((rule, level, cs), {})
         if prior not in g or okey < g[prior][0]:
             g[prior] = (okey, s, msg)
+    mins = {}
+    for k, g in groups.items():
+        best = min(v[0] for v in g.values())
+        priors = [p for p in PRIOR_NAMES if p in g and g[p][0] == best]
+        mins[k] = (best, priors)
     out = []
     for (rule, level, cs), g in sorted(groups.items()):
-        priors = set(g)
+        best, priors = mins[(rule, level, cs)]
         dominated = False
-        for (r2, l2, cs2), g2 in groups.items():
-            if r2 == rule and l2 == level and cs2 != cs and set(cs2) < set(cs) and set(g2) >= priors:
+        for (r2, l2, cs2), (best2, priors2) in mins.items():
+            if r2 == rule and l2 == level and set(cs2) < set(cs) and best2 <= best and set(priors2) >= set(priors):
                 dominated = True
                 break
         if dominated:
             continue
-        prior = min(g, key=lambda p: (g[p][0], PRIOR_NAMES.index(p)))
+        prior = priors[0]
         okey, s, msg = g[prior]
         sig = "C04|%s|level=%s|prior=%s|chars=%s|s=%r" % (rule, level, _prior_label(priors), "+".join(cs) or "none", s)
         what = "[prior=%s] %s" % (prior, msg)
@@ -508,24 +537,29 @@ def reduce_single(records):
 
 
 def reduce_pairs(records):
-    """records: (rule, l1, cs1, l2, cs2, pri, key, prior, s1, s2, msg)."""
+    """records: (rule, l1, cs1, l2, cs2, key, prior, s1, s2, msg); same scheme as reduce_single, the order
+    being total length first (so every quick-tier witness sorts before every thorough-only one)."""
     groups = {}
-    for rule, l1, cs1, l2, cs2, pri, key, prior, s1, s2, msg in records:
+    for rule, l1, cs1, l2, cs2, key, prior, s1, s2, msg in records:
         g = groups.setdefault((rule, l1, cs1, l2, cs2), {})
         if prior not in g or key < g[prior][0]:
             g[prior] = (key, s1, s2, msg)
+    mins = {}
+    for k, g in groups.items():
+        best = min(v[0] for v in g.values())
+        mins[k] = (best, [p for p in PRIOR_NAMES if p in g and g[p][0] == best])
     out = []
     for (rule, l1, cs1, l2, cs2), g in sorted(groups.items()):
-        priors = set(g)
+        best, priors = mins[(rule, l1, cs1, l2, cs2)]
         dominated = False
-        for (r, a1, c1, a2, c2), g2 in groups.items():
+        for (r, a1, c1, a2, c2), (best2, priors2) in mins.items():
             if (r, a1, a2) == (rule, l1, l2) and (c1, c2) != (cs1, cs2) and set(c1) <= set(cs1) \
-                    and set(c2) <= set(cs2) and set(g2) >= priors:
+                    and set(c2) <= set(cs2) and best2 <= best and set(priors2) >= set(priors):
                 dominated = True
                 break
         if dominated:
             continue
-        prior = min(g, key=lambda p: g[p][0])
+        prior = priors[0]
         key, s1, s2, msg = g[prior]
         sig = "C04|pair:%s|first=%s:%s|level=%s|prior=%s|chars=%s|s1=%r|s2=%r" % (
             rule, l1, "+".join(cs1) or "none", l2, _prior_label(priors), "+".join(cs2) or "none", s1, s2)
@@ -562,6 +596,27 @@ def run(ctx):
             if H.tf(host).text != want[name] or T.frame_texts([(T.para_text(p),) for p in H.prior_obs[name]]) != (want[name],):
                 raise HarnessError("prior state %s does not read as written on host %s: %r" % (name, host, H.tf(host).text))
 
+    # the part loader used for the part-level round trip must work on the pristine fixture; if the loader's
+    # interface moved this is a harness problem, not a violation
+    for host in ("tb", "cell"):
+        H.set_prior(host, "three")
+        try:
+            if reload_snap(H.part[host], H.part[host].blob, host) != snap(H.tf(host)):
+                raise HarnessError("part re-load of the pristine fixture reads different text (host %s)" % host)
+        except HarnessError:
+            raise
+        except Exception as e:  # noqa: BLE001
+            raise HarnessError("part loader interface not usable: %r" % (e,))
+
+    # a few real cases for the evidence file (fixed, executed in the parent)
+    for level, prior, s in (("frame", "three", " a\n\v\x07 "), ("cell", "ppr", "\n\n"), ("para", "ppr", "x\ny\vz"),
+                            ("run", "fld", "\v\n<&"), ("para", "fld", "  "), ("run", "empty", "\U0001F600\t")):
+        host = _host_for(level)
+        H.set_prior(host, prior)
+        f, post, sn = do_op(H, host, H.prior_obs[prior], level, s, True)
+        ctx.sample({"level": level, "prior": prior, "assigned": s, "frame_text_read": sn[0] if sn else None,
+                    "paragraph_texts_read": list(sn[1]) if sn else None, "failures": [x[0] for x in f]})
+
     # phase 1: single assignments
     units = [(li, pri, b0) for li in range(len(LEVELS)) for pri in range(len(PRIORS))
              for b0 in range(0, len(_STRINGS), BATCH)]
@@ -576,7 +631,15 @@ def run(ctx):
 
     # phase 2: ordered pairs
     punits = [(pri, l1, s1i) for pri in range(len(PRIORS)) for l1 in range(len(LEVELS)) for s1i in range(len(_PAIRSTR))]
-    fanout(ctx, _pair_worker, ctx.rotate(punits), chunk_size=max(1, len(punits) // 256))
+    # balance: units with a short first string carry many second strings; longest-processing-time binning
+    nbins = min(512, len(punits))
+    heap = [(0, b) for b in range(nbins)]
+    bins = [[] for _ in range(nbins)]
+    for u in sorted(punits, key=lambda u: (-closed_form(npair - len(_PAIRSTR[u[2]])), u)):
+        load, b = heapq.heappop(heap)
+        bins[b].append(u)
+        heapq.heappush(heap, (load + 4 * closed_form(npair - len(_PAIRSTR[u[2]])) + 2, b))
+    fanout(ctx, _pair_worker, ctx.rotate(bins), chunk_size=1)
     exp2 = len(PRIORS) * 16 * sum(len(S) ** i * closed_form(npair - i) for i in range(npair + 1))
     if ctx.counters.get("pair_cases", 0) != exp2:
         raise HarnessError("pair cases %d != closed form %d" % (ctx.counters.get("pair_cases", 0), exp2))
